@@ -212,12 +212,14 @@ def run(tier, seed):
         failing += class_stream(ck)
         failing += malformed_stream(ck, tmp, 10 if not ck.deep else 60)
         failing += nesting_stream(ck)
+        failing += scaling_stream(ck)
         failing += sharing_stream(ck)
         failing += command_stream(ck, tmp)
         ck.cov["rule"] = ("for each of N generated envelopes: every node (descending through bstr-wrapped layers) replaced by 26 "
                           "representatives of the CBOR types (raw splice and with the enclosing byte-string headers rebuilt), every "
                           "truncation (sampled when long), random byte edits, length-field inflation of every head; nesting of "
-                          "run-sequence / try-each / arrays / tags up to and beyond the recursion limit. Oracle: exception type of "
+                          "run-sequence / try-each / arrays / tags up to and beyond the recursion limit (a sweep across the depths where the stack runs out); wide inputs (each collection "
+                          "of the envelope with n and 4n members, time ratio). Oracle: exception type of "
                           "SuitEnvelopeTagged.from_cbor(x).to_obj() in {ValueError, SUITError}, wall time and RSS growth per input. "
                           "non-trivial = input that is not rejected by the very first check (tag / top-level type); distinct by input bytes")
         return ck.decide(failing, search=lambda: malformed_stream(ck, tmp, 40))
@@ -449,22 +451,95 @@ def nested_run_sequences(depth):
     return cbor2.dumps(cbor2.CBORTag(107, {2: cbor2.dumps([cbor2.dumps([-16, bytes(32)])]), 3: cbor2.dumps({1: 1, 2: 1, 7: seq})}))
 
 
+def _envelope(members=None, man=None, auth=None):
+    man = man or {1: 1, 2: 1, 3: cbor2.dumps({2: [[b"M"]]})}
+    m = {2: auth or cbor2.dumps([cbor2.dumps([-16, bytes(32)])]), 3: cbor2.dumps(man)}
+    m.update(members or {})
+    return cbor2.dumps(cbor2.CBORTag(107, m))
+
+
+WIDE = {
+    "integrated payloads": lambda n: _envelope({"#%d" % i: b"" for i in range(n)}),
+    "components": lambda n: _envelope(man={1: 1, 2: 1, 3: cbor2.dumps({2: [[b"M", i] for i in range(n)]})}),
+    "component identifier parts": lambda n: _envelope(man={1: 1, 2: 1, 3: cbor2.dumps({2: [[b"M"] + [cbor2.dumps(i) for i in range(n)]]})}),
+    "commands": lambda n: _envelope(man={1: 1, 2: 1, 3: cbor2.dumps({2: [[b"M"]]}), 7: cbor2.dumps([12, 0] * n)}),
+    "authentication blocks": lambda n: _envelope(auth=cbor2.dumps([cbor2.dumps([-16, bytes(32)])] + [cbor2.dumps(cbor2.CBORTag(18, [cbor2.dumps({1: -8}), {}, None, bytes(64)]))] * (n // 8))),
+    "dependencies": lambda n: _envelope(man={1: 1, 2: 1, 3: cbor2.dumps({1: {i: {} for i in range(n)}, 2: [[b"M", i] for i in range(n)]})}),
+    "text languages": lambda n: _envelope(man={1: 1, 2: 1, 3: cbor2.dumps({2: [[b"M"]]}), 23: cbor2.dumps({"l%d" % i: {1: "x"} for i in range(n)})}),
+    "parameter overrides": lambda n: _envelope(man={1: 1, 2: 1, 3: cbor2.dumps({2: [[b"M"]]}), 7: cbor2.dumps([20, {14: 1}] * n)}),
+    "try-each alternatives": lambda n: _envelope(man={1: 1, 2: 1, 3: cbor2.dumps({2: [[b"M"]]}), 7: cbor2.dumps([15, [cbor2.dumps([12, 0])] * n])}),
+}
+
+
+def _best_time(data, runs=3):
+    best, res = None, None
+    for _ in range(runs):
+        t0 = time.perf_counter()
+        res = interp.run_impl(impl_parse_raw, data)
+        dt = time.perf_counter() - t0
+        best = dt if best is None or dt < best else best
+    return best, res
+
+
+def scaling_stream(ck):
+    """WIDE inputs: one collection of the envelope with n and with 4n members.  Time proportional to the input means that four times
+    the members cost about four times the time; a per-member cost that grows with the members already read shows as a ratio near 16.
+    Judged on the best of three runs each, and only when the larger run is long enough to be measured (0.5 s)."""
+    fails = []
+    n = 4000 if not ck.deep else 8000
+    for what, mk in WIDE.items():
+        small, big = mk(n), mk(4 * n)
+        t1, r1 = _best_time(small)
+        t4, r4 = _best_time(big)
+        ck.count("scaling", (what, n), nontrivial=r4[0] == "ok", sample={"collection": what, "members": [n, 4 * n], "bytes": [len(small), len(big)],
+                                                                           "seconds": [round(t1, 3), round(t4, 3)], "outcome": r4[1] if r4[0] == "exn" else "parsed"})
+        if r4[0] == "exn" and r4[1] not in ALLOWED:
+            fails.append({"input": {"wide": what, "members": 4 * n}, "observed": f"{r4[1]} escaped from from_cbor(...).to_obj()", "expected": "ValueError or SUITError"})
+        elif t4 > 0.5 and t4 > 9 * t1:
+            fails.append({"input": {"wide": what, "members": 4 * n},
+                          "observed": f"{4 * n} {what} ({len(big)} bytes) took {t4:.2f} s, {n} ({len(small)} bytes) took {t1:.2f} s: {t4 / t1:.0f} times the time for 4 times the input",
+                          "expected": "time proportional to the input size"})
+    return fails
+
+
+def nested_try_each(depth):
+    seq = cbor2.dumps([12, 0])
+    for _ in range(depth):
+        seq = cbor2.dumps([15, [seq, cbor2.dumps([])]])
+    return cbor2.dumps(cbor2.CBORTag(107, {2: cbor2.dumps([cbor2.dumps([-16, bytes(32)])]), 3: cbor2.dumps({1: 1, 2: 1, 7: seq})}))
+
+
 def nesting_stream(ck):
     fails = []
     for depth in ([1, 5, 20, 60] if not ck.deep else [1, 5, 20, 60, 100, 140]):
         observe(ck, "nesting", nested_run_sequences(depth), fails, None, origin=f"run-sequence nested {depth} deep")
+        observe(ck, "nesting", nested_try_each(depth), fails, None, origin=f"try-each nested {depth} deep")
+    # a sweep across the depths at which the interpreter's stack runs out: reading and showing use different numbers of frames per
+    # level, so there is a band of depths that the reader still accepts and the dump does not
+    for depth in range(66, 420, 9 if not ck.deep else 2):
+        for mk, what in ((nested_run_sequences, "run-sequence"), (nested_try_each, "try-each")):
+            before = len(fails)
+            observe(ck, "nesting", mk(depth), fails, None, origin=f"{what} nested {depth} deep")
+            if len(fails) > before:
+                break
+        if len(fails) >= 3:
+            break
     # the same in a fresh interpreter WITHOUT the harness's logger stub (F6b, fixed: log_call walked the whole stack on every call)
     import subprocess
     prog = ("import sys,time;sys.path.insert(0,sys.argv[1]);from suit_generator.suit.envelope import SuitEnvelopeTagged;"
             "d=bytes.fromhex(sys.argv[2]);t=time.perf_counter()\n"
-            "try:\n SuitEnvelopeTagged.from_cbor(d).to_obj()\nexcept Exception as e:\n print(type(e).__name__)\n"
+            "try:\n SuitEnvelopeTagged.from_cbor(d).to_obj()\nexcept Exception as e:\n print('rejected' if isinstance(e, ValueError) or type(e).__name__ == 'SUITError' else 'E ' + type(e).__name__)\n"
             "print('T',time.perf_counter()-t)")
-    for depth in ((120,) if not ck.deep else (100, 120, 150)):
+    for depth in ((120, 170, 230, 300) if not ck.deep else (100, 120, 150, 165, 180, 200, 230, 260, 300, 330)):
         data = nested_run_sequences(depth)
         p = subprocess.run([core.PY, "-c", prog, core.REPO, data.hex()], capture_output=True, text=True, env=dict(os.environ, PYTHONPATH=core.REPO))
         took = [float(x.split()[1]) for x in p.stdout.splitlines() if x.startswith("T ")]
         ck.count("nesting", ("unstubbed", depth), nontrivial=True, sample={"origin": f"run-sequence nested {depth} deep, fresh interpreter, unmodified logger", "len": len(data)})
-        if not took or took[0] > 2.0 + 0.002 * len(data):
+        esc = [x.split()[1] for x in p.stdout.splitlines() if x.startswith("E ")]
+        if esc:
+            fails.append({"input": {"bytes": data.hex(), "origin": f"run-sequence nested {depth} deep, parsed in a fresh interpreter (logger not stubbed)"},
+                          "observed": f"{esc[0]} escaped from from_cbor(...).to_obj()", "expected": "ValueError or SUITError"})
+        elif not took or took[0] > 2.0 + 0.002 * len(data):
             fails.append({"input": {"bytes": data.hex(), "origin": f"run-sequence nested {depth} deep, parsed in a fresh interpreter (logger not stubbed)"},
                           "observed": f"parsing took {took[0]:.2f} s for {len(data)} bytes" if took else f"no result: {p.stderr[-200:]}",
                           "expected": "time proportional to the input size"})
@@ -552,6 +627,14 @@ def replay(path):
             fs = [f for f in command_stream(_CK(), tmp) if f["input"]["output_format"] == inp["output_format"] and f["input"]["parse_hierarchy"] == inp["parse_hierarchy"]]
         finally:
             shutil.rmtree(tmp, ignore_errors=True)
+        print("REPRODUCED: " + fs[0]["observed"] if fs else "not reproduced on the current tree")
+        return 1 if fs else 0
+    if "wide" in inp:
+        class _CK:
+            deep = inp["members"] > 16000
+            def count(self, *a, **k):
+                pass
+        fs = [f for f in scaling_stream(_CK()) if f["input"]["wide"] == inp["wide"]]
         print("REPRODUCED: " + fs[0]["observed"] if fs else "not reproduced on the current tree")
         return 1 if fs else 0
     data = bytes.fromhex(inp["bytes"])
